@@ -234,8 +234,110 @@ def isHexFloat (s : String) : Bool :=
 
 def isType (t : String) : Bool := t == "f" || t == "d" || t == "l"
 
+/-! ### histories of `DynamicMatrixHelp::eigenValuesNonSym` calls on the same two containers -/
+
+/-- junk the harness puts into pre-filled containers -/
+def junkVal (i : Nat) : Int × Int := (5000 + (i : Int), 6000 + (i : Int))
+def junkVec (p q : Nat) : Int := 10000 + 100 * (p : Int) + (q : Int)
+
+def preState (a : Nat) (lens : List Nat) : NsOut (Int × Int) Int :=
+  ⟨(List.range a).map junkVal, lens.mapIdx fun p l => (List.range l).map (junkVec p)⟩
+
+def showVals (l : List (Int × Int)) : String := showList (l.map fun v => toString v.1 ++ ":" ++ toString v.2)
+def showVecs (l : List (List Int)) : String := showList (l.map fun v => showList (v.map Int.natAbs))
+def showLens (l : List (List Int)) : String := showList (l.map List.length)
+
+def parseNatList? (s : String) : Option (List Nat) :=
+  match parseIntList? s with
+  | some xs => xs.mapM fun x => if x < 0 then none else some x.toNat
+  | none => none
+
+/-- segment `pre a [l0,l1,…]`: the caller's containers before the next call -/
+def parsePre? (ts : List String) : Option (NsOut (Int × Int) Int) :=
+  match ts with
+  | [a, ls] =>
+    match a.toNat?, parseNatList? ls with
+    | some a, some lens => if a ≤ 12 && lens.length ≤ 12 && lens.all (· ≤ 12) then some (preState a lens) else none
+    | _, _ => none
+  | _ => none
+
+/-- one step of a `handnsq` history (recording fake: `w c = c + 1`, `vr` = Fortran storage of `fakeZ`) -/
+def handnsqSeg (st : NsOut (Int × Int) Int) (ts : List String) : Option (NsOut (Int × Int) Int × String) :=
+  match ts with
+  | "pre" :: rest =>
+    match parsePre? rest with
+    | some st' => some (st', "pre vals=" ++ showVals st'.vals ++ " vecs=" ++ showVecs st'.vecs)
+    | none => none
+  | "fk" :: ns :: vs :: rest =>
+    match ns.toNat?, vs.toNat?, rest.mapM String.toInt? with
+    | some n, some v, some xs =>
+      if n == 0 || n > 8 || v > 1 || xs.length != n * n then none else
+      let vec := v == 1
+      let A := matOf n xs
+      let sees := lapackSeesNonSymD n A
+      let seesA := allIdx n fun r c => sees r c == A r c
+      let seesAT := allIdx n fun r c => sees r c == A c r
+      let spec := if seesA || seesAT then "A" else "other"
+      let rightOf := if !vec then "-" else if seesA then "A" else if seesAT then "AT" else "other"
+      let call : NsCall (Int × Int) Int := ⟨n, vec, fun i => ((i : Int) + 1, 0), fortranStore n fakeZ⟩
+      match nsStep (0, 0) 0 st call with
+      | some st' =>
+        some (st', "spectrum-of=" ++ spec ++ " right-eigenvectors-of=" ++ rightOf ++ " vals=" ++ showVals st'.vals ++
+          " vecs=" ++ showVecs st'.vecs)
+      | none => some (st, "ERR:OutOfBounds")
+    | _, _, _ => none
+  | _ => none
+
+/-- one step of an `nsq` history (real LAPACK: only the shape of the containers is predicted) -/
+def nsqSeg (st : NsOut (Int × Int) Int) (ts : List String) : Option (NsOut (Int × Int) Int × String) :=
+  match ts with
+  | "pre" :: rest =>
+    match parsePre? rest with
+    | some st' => some (st', "pre vals=" ++ toString st'.vals.length ++ " vecs=" ++ showLens st'.vecs)
+    | none => none
+  | "ev" :: ns :: vs :: ks :: rest =>
+    match ns.toNat?, vs.toNat?, ks.toInt? with
+    | some n, some v, some _ =>
+      if n == 0 || n > 8 || v > 1 || rest.length != n * n || !rest.all isHexFloat then none else
+      let call : NsCall (Int × Int) Int := ⟨n, v == 1, fun _ => (0, 0), fun _ => 0⟩
+      match nsStep (0, 0) 0 st call with
+      | some st' =>
+        some (st', "n=" ++ toString n ++ " vals=" ++ toString st'.vals.length ++ " vecs=" ++ showLens st'.vecs)
+      | none => some (st, "ERR:OutOfBounds")
+    | _, _, _ => none
+  | _ => none
+
+def runSegs (f : NsOut (Int × Int) Int → List String → Option (NsOut (Int × Int) Int × String)) :
+    NsOut (Int × Int) Int → List String → Option (List String)
+  | _, [] => some []
+  | st, seg :: segs =>
+    match f st (tokens seg) with
+    | none => none
+    | some (st', out) => (runSegs f st' segs).map (out :: ·)
+
+def history (line : String) : String :=
+  match line.splitOn " : " with
+  | [head, body] =>
+    let f? := match tokens head with
+      | [op, t, c] =>
+        if !(isType t) || !(c == "c" || c == "z") then none
+        else if op == "nsq" then some nsqSeg else if op == "handnsq" then some handnsqSeg else none
+      | _ => none
+    match f? with
+    | none => "bad-op"
+    | some f =>
+      let segs := body.splitOn ";"
+      if segs.isEmpty || segs.length > 40 then "bad-op" else
+      match runSegs f ⟨[], []⟩ segs with
+      | some outs => " | ".intercalate outs
+      | none => "bad-op"
+  | _ => "bad-op"
+
+
 def handle (line : String) : String :=
   match tokens line with
+  | "nsq" :: _ => history line
+  | "handnsq" :: _ => history line
   | "ev2x" :: t :: rest =>
     match rest.mapM String.toInt? with
     | some [a, b, d, e] => ev2x t a b d e
